@@ -553,7 +553,7 @@ func GenExtCase(r *common.Rng) Case {
 	}
 	b.WriteString(cp + "\n")
 	for o := 0; o < rom.nOut; o++ {
-		fmt.Fprintf(&b, "%%meta ioatt xo%d cp:cpu, type:output, index:%d\n%%meta ioatt xo%d cp:bm, type:output, index:%d\n", o, o, o, o)
+		b.WriteString(ioattPair(r, fmt.Sprintf("xo%d", o), "cpu", "output", o, o))
 	}
 	b.WriteString("%meta bmdef global registersize:" + strconv.Itoa(rsize) + "\n")
 	c.Text = b.String()
@@ -640,7 +640,7 @@ func GenSoCase(r *common.Rng) Case {
 		for idx, id := range att[cpi] {
 			fmt.Fprintf(&b, "%%meta soatt %s cp:%s, index:%d\n", sos[id].name, names[cpi], idx)
 		}
-		fmt.Fprintf(&b, "%%meta ioatt out%d cp:%s, type:output, index:0\n%%meta ioatt out%d cp:bm, type:output, index:%d\n", cpi, names[cpi], cpi, cpi)
+		b.WriteString(ioattPair(r, fmt.Sprintf("out%d", cpi), names[cpi], "output", 0, cpi))
 	}
 	c.Text = b.String()
 	return c
@@ -713,62 +713,177 @@ func GenUnfitCase(r *common.Rng) Case {
 	b.WriteString(strings.Join(vals, ", ") + "\n%endsection\n")
 	b.WriteString("%meta sodef fifo constraint:queue:8\n%meta sodef vid constraint:vtextmem:0:0:0:8:4\n")
 	b.WriteString("%meta cpdef cpu romcode:code1, ramdata:d1\n%meta soatt fifo cp:cpu, index:0\n%meta soatt vid cp:cpu, index:1\n")
-	b.WriteString("%meta ioatt out0 cp:cpu, type:output, index:0\n%meta ioatt out0 cp:bm, type:output, index:0\n")
+	b.WriteString(ioattPair(r, "out0", "cpu", "output", 0, 0))
 	c.Text = b.String()
 	return c
 }
 
 // ---- data sections whose addresses the program uses -----------------------------------------------
 
-// GenDataCase: one processor with a ROM data section (plain `db`, repeated `N:db`, several
-// variables) and a program that loads the address of a variable (`mov rK, rom:name`), walks a few
-// cells (`inc`) and reads them (`mov rJ, rom:[rK]`), sending what it reads to its outputs.
+// ioattPair: the two `ioatt` lines of one link, written in either order (the pairing is by name)
+func ioattPair(r *common.Rng, name, cp, typ string, cpIdx, bmIdx int) string {
+	a := fmt.Sprintf("%%meta ioatt %s cp:%s, type:%s, index:%d\n", name, cp, typ, cpIdx)
+	b := fmt.Sprintf("%%meta ioatt %s cp:bm, type:%s, index:%d\n", name, typ, bmIdx)
+	if r.Bool() {
+		return b + a
+	}
+	return a + b
+}
+
+// dataElem: one element of a `db` line: a number (one byte) or a quoted string (one byte per character)
+type dataElem struct {
+	text  string
+	bytes []int
+}
+
+// genDataString: a quoted string with letters, digits, single blanks, runs of blanks, tabs (the
+// assembler's line reader turns every tab of a line into a blank, inside a string too), commas and
+// punctuation.  The language has no escape character: a backslash is a byte like any other.  Never
+// produced: `"` (ends the string), `;` (starts a comment anywhere in a line), `{`/`}` (template markers).
+func genDataString(r *common.Rng) dataElem {
+	pieces := []string{"a", "b", "Z", "q7", "0", "x1y", " ", " ", "  ", "   ", "     ", "\t", " \t ", ",", ", ", ".", "!", "?", "#", "$", "%", "&", "'",
+		"(", ")", "*", "+", "-", "/", ":", "<", "=", ">", "@", "[", "]", "\\", "^", "_", "|", "~", "0x1f", "db", "rom:"}
+	s := ""
+	for n := 1 + r.Intn(5); n > 0; n-- {
+		s += pieces[r.Intn(len(pieces))]
+	}
+	s = strings.ReplaceAll(s, "\\n", "\\m") // the harness protocol writes a line break as \n
+	e := dataElem{text: "\"" + s + "\""}
+	for _, ch := range []byte(s) {
+		if ch == '\t' {
+			ch = ' '
+		}
+		e.bytes = append(e.bytes, int(ch))
+	}
+	return e
+}
+
+// GenDataCase: 1..3 processors running ONE code section, each with a ROM data section of its own
+// (the same variables in another order, with other values and sizes — or literally the same
+// section): plain `db`, repeated `N:db`, numbers and quoted strings.  The program loads the address
+// of a variable (`mov rK, rom:name`), walks a few cells (`inc`) and reads them (`mov rJ, rom:[rK]`),
+// sending what it reads to its output.
 func GenDataCase(r *common.Rng) Case {
 	c := Case{Kind: "ext:data"}
 	rsize := []int{8, 16, 32}[r.Intn(3)]
 	type dvar struct {
-		name string
-		rep  int
-		vals []int
+		name  string
+		rep   int
+		elems []dataElem
 	}
-	nv := 2 + r.Intn(3)
-	vars := []dvar{}
-	for i := 0; i < nv; i++ {
-		v := dvar{name: fmt.Sprintf("v%d", i), rep: 1}
+	cells := func(v dvar) int {
+		n := 0
+		for _, e := range v.elems {
+			n += len(e.bytes)
+		}
+		return n * v.rep
+	}
+	genVar := func(name string) dvar {
+		v := dvar{name: name, rep: 1}
 		if r.Chance(1, 2) {
 			v.rep = 2 + r.Intn(3)
 		}
+		hasStr := false // sizes stay small: every address fits an 8-bit register
 		for n := 1 + r.Intn(3); n > 0; n-- {
-			v.vals = append(v.vals, 1+r.Intn(254))
+			if !hasStr && r.Chance(1, 3) {
+				v.elems = append(v.elems, genDataString(r))
+				hasStr = true
+				if v.rep > 2 {
+					v.rep = 2
+				}
+			} else {
+				x := 1 + r.Intn(254)
+				v.elems = append(v.elems, dataElem{text: fmt.Sprintf("0x%02x", x), bytes: []int{x}})
+			}
 		}
-		vars = append(vars, v)
+		return v
+	}
+	nv := 2 + r.Intn(3)
+	ncp := 1
+	if r.Chance(1, 2) {
+		ncp = 2 + r.Intn(2)
+		c.Kind = "ext:data-shared-code"
+	}
+	cpNames := []string{"cpu", "alu", "zed", "b2", "core"}
+	for i := len(cpNames) - 1; i > 0; i-- {
+		j := r.Intn(i + 1)
+		cpNames[i], cpNames[j] = cpNames[j], cpNames[i]
+	}
+	// the data section of each processor
+	secs := [][]dvar{}
+	secOf := make([]int, ncp)
+	for p := 0; p < ncp; p++ {
+		if p > 0 && r.Chance(1, 5) {
+			secOf[p] = secOf[r.Intn(p)]
+			continue
+		}
+		vars := []dvar{}
+		for i := 0; i < nv; i++ {
+			vars = append(vars, genVar(fmt.Sprintf("v%d", i)))
+		}
+		for i := len(vars) - 1; i > 0; i-- { // another order in every section: another offset for the same name
+			j := r.Intn(i + 1)
+			vars[i], vars[j] = vars[j], vars[i]
+		}
+		secOf[p] = len(secs)
+		secs = append(secs, vars)
+	}
+	minCells := func(name string) int {
+		m := 1 << 30
+		for _, vars := range secs {
+			for _, v := range vars {
+				if v.name == name && cells(v) < m {
+					m = cells(v)
+				}
+			}
+		}
+		return m
 	}
 	var b strings.Builder
 	b.WriteString("%meta bmdef global registersize:" + strconv.Itoa(rsize) + "\n")
-	b.WriteString("%section code1 .romtext iomode:async\n\tentry _start\n_start:\n")
-	for n := 2 + r.Intn(3); n > 0; n-- {
-		v := vars[r.Intn(len(vars))]
-		cells := v.rep * len(v.vals)
-		b.WriteString("\tmov r0, rom:" + v.name + "\n")
-		for k := r.Intn(cells); k > 0; k-- {
-			b.WriteString("\tinc r0\n")
+	code := func() {
+		b.WriteString("%section code1 .romtext iomode:async\n\tentry _start\n_start:\n")
+		for n := 2 + r.Intn(3); n > 0; n-- {
+			name := fmt.Sprintf("v%d", r.Intn(nv))
+			b.WriteString("\tmov r0, rom:" + name + "\n")
+			for k := r.Intn(minCells(name)); k > 0; k-- {
+				b.WriteString("\tinc r0\n")
+			}
+			b.WriteString("\tmov r1, rom:[r0]\n\tmov o0, r1\n")
 		}
-		b.WriteString("\tmov r1, rom:[r0]\n\tmov o0, r1\n")
+		b.WriteString("\tj _start\n%endsection\n")
 	}
-	b.WriteString("\tj _start\n%endsection\n%section data1 .romdata\n")
-	for _, v := range vars {
-		hs := make([]string, len(v.vals))
-		for i, x := range v.vals {
-			hs[i] = fmt.Sprintf("0x%02x", x)
-		}
-		op := "db"
-		if v.rep > 1 {
-			op = strconv.Itoa(v.rep) + ":db"
-		}
-		b.WriteString("\t" + v.name + " " + op + " " + strings.Join(hs, ", ") + "\n")
+	codeFirst := r.Bool()
+	if codeFirst {
+		code()
 	}
-	b.WriteString("%endsection\n%meta cpdef cpu romcode:code1, romdata:data1\n")
-	b.WriteString("%meta ioatt out0 cp:cpu, type:output, index:0\n%meta ioatt out0 cp:bm, type:output, index:0\n")
+	for si, vars := range secs {
+		fmt.Fprintf(&b, "%%section data%d .romdata\n", si+1)
+		for _, v := range vars {
+			op := "db"
+			if v.rep > 1 {
+				op = strconv.Itoa(v.rep) + ":db"
+			}
+			line := "\t" + v.name + pick(r, []string{" ", " ", "\t", "  "}) + op + pick(r, []string{" ", " ", "  ", "\t", "   "})
+			for i, e := range v.elems {
+				if i > 0 {
+					line += pick(r, []string{", ", ", ", ",", " , ", ",  "})
+				}
+				line += e.text
+			}
+			b.WriteString(line + "\n")
+		}
+		b.WriteString("%endsection\n")
+	}
+	if !codeFirst {
+		code()
+	}
+	for p := 0; p < ncp; p++ {
+		fmt.Fprintf(&b, "%%meta cpdef %s romcode:code1, romdata:data%d\n", cpNames[p], secOf[p]+1)
+	}
+	for p := 0; p < ncp; p++ {
+		b.WriteString(ioattPair(r, fmt.Sprintf("out%d", p), cpNames[p], "output", 0, p))
+	}
 	c.Text = b.String()
 	return c
 }
